@@ -20,6 +20,7 @@ package collection
 
 import (
 	"sort"
+	"sync"
 	"time"
 
 	"github.com/zeromicro/go-zero/core/timex"
@@ -111,16 +112,33 @@ func VerifC12Params(tw *TimingWheel) (time.Duration, int) {
 	return tw.interval, tw.numSlots
 }
 
+type verifC12Shared struct {
+	relay, inner *TimingWheel
+}
+
+var (
+	verifC12Mu     sync.Mutex
+	verifC12Tapped = map[*TimingWheel]*verifC12Shared{}
+)
+
 // VerifC12TapCache must be called right after NewCache, before the cache is used.
+// Caches that were given one and the same wheel keep sharing one (relayed) wheel.
 func VerifC12TapCache(c *Cache, tk timex.Ticker, rec VerifC12Recorder) (*VerifC12Tap, error) {
 	old := c.timingWheel
-	relay, inner, err := VerifC12Retap(old, tk, rec, func(v any) any { return v })
-	if err != nil {
-		return nil, err
+	verifC12Mu.Lock()
+	defer verifC12Mu.Unlock()
+	sh := verifC12Tapped[old]
+	if sh == nil {
+		relay, inner, err := VerifC12Retap(old, tk, rec, func(v any) any { return v })
+		if err != nil {
+			return nil, err
+		}
+		old.Stop()
+		sh = &verifC12Shared{relay: relay, inner: inner}
+		verifC12Tapped[old] = sh
 	}
-	old.Stop()
-	c.timingWheel = relay
-	return &VerifC12Tap{Interval: old.interval, NumSlots: old.numSlots, cache: c, inner: inner}, nil
+	c.timingWheel = sh.relay
+	return &VerifC12Tap{Interval: old.interval, NumSlots: old.numSlots, cache: c, inner: sh.inner}, nil
 }
 
 // Keys returns the keys of c.data, sorted.
@@ -142,5 +160,12 @@ func (t *VerifC12Tap) Drain(fn func(k, v any)) error {
 
 // Stop stops the wheel (and with it the relay).
 func (t *VerifC12Tap) Stop() {
-	t.inner.Stop()
+	verifC12Mu.Lock()
+	defer verifC12Mu.Unlock()
+	for old, sh := range verifC12Tapped {
+		if sh.inner == t.inner {
+			delete(verifC12Tapped, old)
+			t.inner.Stop()
+		}
+	}
 }
